@@ -42,6 +42,8 @@ type LogEntry struct {
 	M        *Msg
 	Accepted bool // CanAccept returned true and Accept was called
 	Forced   bool // Accept called although CanAccept was false
+	// ClosedBefore / ClosedAfter: whether the party's outgoing channel was closed before / after this delivery
+	ClosedBefore, ClosedAfter bool
 }
 
 type Party struct {
@@ -293,13 +295,14 @@ func (n *Net) DeliverTo(p *Party, d *Delivery) error {
 	if err := guard("CanAccept", func() { can = p.H.CanAccept(m) }); err != nil {
 		return err
 	}
-	p.Log = append(p.Log, LogEntry{M: m, Accepted: can, Forced: !can && n.ForceAccept})
+	p.Log = append(p.Log, LogEntry{M: m, Accepted: can, Forced: !can && n.ForceAccept, ClosedBefore: p.Closed, ClosedAfter: p.Closed})
 	if !can && !n.ForceAccept {
 		n.Dropped++
 		return nil
 	}
 	n.Delivered++
 	out, err := n.Call(p, "Accept", func() { p.H.Accept(m) })
+	p.Log[len(p.Log)-1].ClosedAfter = p.Closed
 	n.collect(p, out)
 	return err
 }
